@@ -385,9 +385,13 @@ def dict_setup(ctx):
     consts = {"mapping_origin_types": (ClassRef("dict"), ClassRef("Dict")), "NestedArg": ClassRef("NestedArg"), "MappingProxyType": ClassRef("MappingProxyType"),
               "typed_dict_meta_types": (), "OrderedDict": ClassRef("OrderedDict")}
     subtypes = None if key_type == "untyped" else (ClassRef(key_type), ClassRef("V"))
-    env = {"val": val, "typehint": Rec("hint"), "typehint_origin": ClassRef("dict"), "subtypehints": subtypes, "serialize": serialize, "prev_val": None,
-           "adapt_kwargs": {"sub_add_kwargs": {}, "prev_val": None}}
-    return Setup(env=env, calls=calls, consts=consts, data=dict(container=container, key_type=key_type, keys=keys, vals=vals, val=val, log=log, serialize=serialize, keys_kind=keys_kind))
+    # an earlier source may have given a mapping for this key: each entry is then adapted with the previous value of *its own* entry (a class spec given as
+    # `init_args` only takes its class from there)
+    prev = {k: Rec(f"previous value of entry {k!r}") for k in keys} if (container == "dict" and keys and not serialize and ctx.choose(2, "a-previous-mapping-exists") == 1) else None
+    adapt_kwargs = {"sub_add_kwargs": {}, "prev_val": prev}
+    env = {"val": val, "typehint": Rec("hint"), "typehint_origin": ClassRef("dict"), "subtypehints": subtypes, "serialize": serialize, "prev_val": prev,
+           "adapt_kwargs": adapt_kwargs}
+    return Setup(env=env, calls=calls, consts=consts, data=dict(container=container, key_type=key_type, keys=keys, vals=vals, val=val, log=log, serialize=serialize, keys_kind=keys_kind, prev=prev, adapt_kwargs=adapt_kwargs))
 
 
 def dict_post(ctx, st, result):
@@ -407,7 +411,17 @@ def dict_post(ctx, st, result):
     dict_frame(ctx, d, tag)
 
 
+def dict_prev(ctx, d, tag):
+    if d.get("prev") is None:
+        return
+    by_val = {id(v) if not is_z3(v) else v.get_id(): k for k, v in d["vals"].items()}
+    ok = all(e[4].get("prev_val") is d["prev"].get(by_val.get(id(e[0]) if not is_z3(e[0]) else e[0].get_id())) for e in d["log"])
+    ctx.oblige("post", "every-entry-is-adapted-with-the-previous-value-of-its-own-key(not of the first one, not the whole mapping)" + tag, ok)
+    ctx.oblige("frame", "the-caller's-keyword-dictionary-still-holds-the-whole-previous-mapping" + tag, d["adapt_kwargs"].get("prev_val") is d["prev"])
+
+
 def dict_frame(ctx, d, tag):
+    dict_prev(ctx, d, tag)
     # as for lists: a mapping that is rejected part-way (or accepted) is left as it was given - another Union member may be tried on it
     if isinstance(d["val"], dict):
         ctx.oblige("frame", "the-mapping-given-is-not-modified(a copy is adapted),whether-the-value-is-accepted-or-rejected" + tag,
